@@ -7,7 +7,7 @@
    hsids = schedulings pending in the heap, psids = popped and called by run(), removed = dropped by removeEvent. *)
 From Coq Require Import List NArith ZArith Permutation.
 Import ListNotations.
-Require Import Base.Wire Base.PyStr C18.Model C18.Lemmas C18.Theorems C18.Periodic C18.Trace.
+Require Import Base.Wire Base.PyStr C18.Model C18.Lemmas C18.Theorems C18.Periodic C18.Trace C18.Bag C18.BagComplete.
 
 (* exactly once / removed never run: at every point of every history each scheduling is in exactly one of
    pending, executed, removed (so: never executed twice, never executed after removal, never lost). *)
@@ -168,3 +168,48 @@ Theorem C18_trace_refines :
   atrace ops abs0 (abs (reach fuel o ops)) /\ TC (reach fuel o ops).
 Proof. exact trace_refines. Qed.
 Print Assumptions C18_trace_refines.
+
+(* ===== the bag semantics for the whole action language (Bag.v).  [btrace ops b b']: the abstract machine -- ONE bag of
+   pending (entry, function) pairs, a clock, counters, the invocation log b_calls and the executed list b_done; no heap,
+   no dict, no tie-break oracle, no loop bound -- can go from b to b' along the history ops, where
+     OAct a   interprets a (add / addPeriodic / remove / reschedule / tick / raise / seq / try) on the bag,
+     ORun     is the small-step relation [brun]: while some pending entry is due, ONE entry of minimal due time leaves
+              the bag, is recorded, and its function is called: the body is interpreted on the same bag (so it may add,
+              remove or reschedule entries, which the following iterations see; it may move the clock), its exception
+              is discarded; a periodic wrapper calls f and then, count permitting (None, or count-1 > 0), inserts its
+              successor at clock+period with count-1 -- also when f raised,
+     OAdvance moves the clock.
+   Theorem: for EVERY history (one-shot and periodic events, re-entrant bodies, raising and clock-ticking callbacks,
+   any heap tie-break o) in which no run() loop was cut by the bound, the state of the model of schedule.py -- with its
+   invocation log and executed list -- is a state the bag semantics reaches.  Induction over bodies, loop, history. ===== *)
+Theorem C18_bag_refines :
+  forall fuel o ops, fuelout (reach fuel o ops) = false -> btrace ops b0 (absb (reach fuel o ops)).
+Proof. exact bag_refines. Qed.
+Print Assumptions C18_bag_refines.
+
+(* the specification is what one expects of run(): a completed abstract run leaves nothing due *)
+Theorem C18_bag_run_drains :
+  forall b b', brun b b' -> forall x, In x (b_pend b') -> (b_clock b' <= e_t (fst x))%Z.
+Proof. exact brun_drains. Qed.
+Print Assumptions C18_bag_run_drains.
+
+(* conversely, every trace of the bag semantics is realised by the model for a suitable heap tie-break oracle and loop
+   bound: over all tie-breaks the model reaches exactly the states (pending bag, invocation log, executed list) of the
+   bag semantics -- the specification is neither looser nor tighter than the code's model *)
+Theorem C18_bag_exact :
+  forall ops b', btrace ops b0 b' <-> exists fuel o, fuelout (reach fuel o ops) = false /\ absb (reach fuel o ops) = b'.
+Proof. exact bag_exact. Qed.
+Print Assumptions C18_bag_exact.
+
+(* the periodic count law as a corollary at trace level, for EVERY trace of the bag semantics: a periodic event
+   registered with count n (its registration number is b_nreg of the abstract state at that moment) is invoked at most
+   cap n times in b_calls, and a pending bag entry holding it carries the remaining count c with invocations + cap c = cap n *)
+Theorem C18_bag_periodic_count :
+  forall ops1 ops2 tag ar body p nm nowf av n b1 b',
+  btrace ops1 b0 b1 -> btrace (OAct (APer tag ar body p nm nowf av (Some n)) :: ops2) b1 b' ->
+  let r := b_nreg b1 in
+  (bnc r b' <= cap n)%Z /\
+  forall x, In x (b_pend b') -> reg_of (snd x) = r ->
+    exists u p' nm' av' c, snd x = Wrap u p' nm' av' (Some c) /\ (bnc r b' + cap c = cap n)%Z.
+Proof. exact bag_periodic_count_trace. Qed.
+Print Assumptions C18_bag_periodic_count.
